@@ -14,7 +14,7 @@ ASSUMPTIONS = [
 
 def step_shards(tier):
     out = []
-    for rv in (("short_h", "reset_d", "full") if tier == "quick" else ("short_h", "reset_h", "short_d", "reset_d", "full")):
+    for rv in (("short_h", "short_d1", "reset_d", "full") if tier == "quick" else ("short_h", "reset_h", "short_d", "short_d1", "reset_d", "full")):
         for ss in ((0, 2, 3) if tier == "quick" else (0, 1, 2, 3)):
             for c in (CTRLS if rv == "full" else ("data", "SUBSCRIBE", "CONNECT_V2")):
                 if rv == "full" and c not in ("DISCONNECT", "CONNECT", "CONNECT_V2", "data") and tier == "quick":
